@@ -773,6 +773,53 @@ pub fn p5_full() -> ProgSpace {
     }
 }
 
+/// GUARD-ARGS: (softfork COST EXT (q . (q . 1)) 1) where COST and EXT range over every byte-level form of an
+/// unsigned integer argument: {no prefix, 00, 0000, 0080, 00a0, 00ff, 80, ff, 7f, 01} x {minimal, 8-byte (4-byte)
+/// zero-padded} encodings of the exact costs under both models (extensions 0, 1, 2). Exercises the width /
+/// sign-byte / leading-zero rules of the unsigned-integer parser, with values that make the guard SUCCEED
+/// whenever the high bytes are (wrongly) dropped.
+pub fn p_guard_args() -> ProgSpace {
+    let ip = parse_prog("(q . 1)");
+    let env = std_env();
+    let eo = standalone_cost(&ip, &env, ClvmFlags::empty()).unwrap() + 140;
+    let en = standalone_cost(&ip, &env, ClvmFlags::NEW_COST_MODEL).unwrap() + 500;
+    let prefixes: Vec<Vec<u8>> = vec![vec![], vec![0], vec![0, 0], vec![0, 0x80], vec![0, 0xa0], vec![0, 0xff], vec![0x80], vec![0xff], vec![0x7f], vec![1]];
+    let mut costs: Vec<Vec<u8>> = vec![];
+    for c in [eo, en] {
+        for body in [crate::tree::int_bytes(c as i128), c.to_be_bytes().to_vec()] {
+            for p in &prefixes {
+                let mut b = p.clone();
+                b.extend_from_slice(&body);
+                costs.push(b);
+            }
+        }
+    }
+    let mut exts: Vec<Vec<u8>> = vec![];
+    for body in [vec![], vec![0u8, 0, 0, 0], vec![0, 0, 0, 1], vec![1], vec![0, 0, 0, 2]] {
+        for p in &prefixes {
+            let mut b = p.clone();
+            b.extend_from_slice(&body);
+            exts.push(b);
+        }
+    }
+    costs.sort();
+    costs.dedup();
+    exts.sort();
+    exts.dedup();
+    let (nc, ne) = (costs.len() as u64, exts.len() as u64);
+    let ips = ip.ser();
+    ProgSpace {
+        name: format!("GUARD-ARGS({nc} declared-cost atoms x {ne} extension atoms)"),
+        total: nc * ne,
+        get: Box::new(move |i| {
+            let c = &costs[(i / ne) as usize];
+            let e = &exts[(i % ne) as usize];
+            let ip = tree::deser(&ips).unwrap().0;
+            (list(&[atom(&[36]), quote(atom(c)), quote(atom(e)), quote(ip), atom(&[1])]), std_env())
+        }),
+    }
+}
+
 // ---------------------------------------------------------------------
 // GC space: every GC-candidate operator over inner expressions that allocate
 pub fn gc_candidates() -> Vec<u8> {
